@@ -15,6 +15,8 @@ def instances(tier):
         for hc in (0, 1, 2):
             out.append({'entry': 'h_request', 'params': [fr, hc, 0], 'bound': 'complete request (framing %d, header-name case %d) with symbolic query value, header value and body bytes' % (fr, hc)})
         out.append({'entry': 'h_request', 'params': [fr, 1, 1], 'bound': 'the same request cut at every byte offset (peer closes early), framing %d' % fr})
+    for mode in (0, 1, 2):
+        out.append({'entry': 'h_query', 'params': [mode], 'bound': 'query parameter with %s' % ('one raw symbolic character (plus means space)', 'a percent-encoded value byte, every pair of hex digits', 'a percent-encoded key byte, every pair of hex digits')[mode]})
     for L in ((0, 1, 2) if q else (0, 1, 2, 3)):
         out.append({'entry': 'h_url', 'params': [L, 0], 'bound': 'Url(s), Url::decode(s) for every NUL-free s of length %d' % L})
     for L in ((4,) if q else (4, 5, 6)):
